@@ -11,12 +11,21 @@ package distinct
 //@ import github.com/creachadair/mds/mapset
 //@ import math/rand/v2
 //@ import math/bits
+//@ import crypto/rand
 //@
 //@ ghost field Counter.k int
 //@ ghost field Counter.added set[T]
 //@
 //@ pred inv(c *Counter[T]) := c != nil && c.buf != nil && c.rng != nil && 0 <= c.k && c.k <= 64 && c.p == mask64(c.k)
 //@+     && (forall x T :: {x in c.buf} x in c.buf ==> x in c.added) && (c.k == 0 ==> dom(c.buf) == c.added)
+//@
+// NewCounter: the constructor establishes the invariant in the exact regime (k == 0, nothing buffered) with the
+// capacity it was given. crypto/rand.Read and rand.NewChaCha8 are called by assumed library contracts.
+//@ func NewCounter
+//@   ensures [C19] fresh: result != nil && fresh(result)
+//@   ensures [C19] exact: inv(result) && result.k == 0 && len(result.buf) == 0 && result.cap == size
+//@   at exit: ghost result.k = 0
+//@   at exit: ghost result.added = emptyset(result.added)
 //@
 //@ func (*Counter).Len
 //@   pure
